@@ -227,6 +227,12 @@ def append_map_inv(cur, rest, xs, smap, params=(), init=None, keep=None):
         e = z3.substitute(smap.body, (smap.var, x), *list(zip(smap.params, params)))
         tail = smap(r1, *params)
         V.LEMMAS.append(V.vl_concat(V.vl_concat(cur, V.VCons(e, V.VNil)), tail) == V.vl_concat(cur, V.VCons(e, tail)))
+        # one explicit unfolding of the spec map at x::rest' (an instance of its definition; z3 does not always unfold by itself)
+        if smap.keep is not None:
+            k = z3.substitute(smap.keep, (smap.var, x), *list(zip(smap.params, params)))
+            V.LEMMAS.append(smap(rs, *params) == z3.If(k, V.VCons(e, tail), tail))
+        else:
+            V.LEMMAS.append(smap(rs, *params) == V.VCons(e, tail))
         if smap.keep is not None:
             V.LEMMAS.append(V.vl_concat(cur, tail) == V.vl_concat(cur, tail))
     return V.vl_concat(cur, m) == V.vl_concat(init, smap(xs, *params))
